@@ -10,12 +10,14 @@
   One soundness lemma per rewrite rule, each for all widths and all operand values, so that a rule can be
   re-proved alone; constant folding per operator (`cst_*`: the `cst` operator table returns the reference
   value and the dictated width); shifts by any amount; rotations; extensions; conditionals.
-  The structural induction that threads these lemmas through `simplify`/`eval` is proved for widths and
-  well-formedness (C12: `Amoco.widthIH_all`); for values it is NOT finished: see `simplify_sound_partial`
-  at the end of this file for what is proved and which cases are missing.
+  `eval_sound`: evaluation of ANY well-formed tree (all operators, all widths, shifts by any amount, rotations,
+  slices, compositions, conditionals, extensions) under a total constant valuation returns the constant
+  `cst (ideal ρ e)` of width `e.size` — proved by structural induction, for every fuel and complexity oracle.
+  The induction through `simplify` is proved for widths and well-formedness (C12: `Amoco.widthIH_all`); for
+  VALUES it is not finished: see `simplify_sound_partial` at the end of this file for what is proved and
+  which cases are missing.
 -/
-import Amoco.Proofs.ExprCst
-import Amoco.Proofs.ExprEvalWidth
+import Amoco.Proofs.ExprEvalSound
 
 namespace Amoco.C01
 
@@ -274,18 +276,48 @@ theorem fold_ror (a w n : Nat) (ha : a < 2 ^ w) :
 theorem fold_rol (a w n : Nat) (ha : a < 2 ^ w) :
     (((a <<< (n % w)) % 2 ^ w) ||| (a >>> (w - n % w))) = binSem Op.rol false w a n := rol_formula a w n ha
 
-/-! ## evaluation and simplification: what the structural induction gives today
+/-! ## evaluation -/
 
-`simplify_sound_partial` is the finished fragment of the induction `oper_sound`/`simplify_sound`/`eval_sound`:
-every function of the rewrite system and `eval`, for every fuel, option, complexity oracle and environment,
-returns a WELL-FORMED expression of the SAME WIDTH as the reference meaning demands (so a constant result
-`cst v w` satisfies `v < 2^w` with `w` the dictated width).  Missing (not proved, covered by the
-correspondence tie and the reference evaluator on every run): that the VALUE of the result is the ideal value
-of the input — i.e. threading the per-rule lemmas above through `op.simplify`/`eqn2_helpers`/`comp.__setitem__`
-(`ideal ρ (simplify e) = ideal ρ e` under `WF e`, `SignOK e`, `NoRenderClash e`), case by case:
-`normL`/`normR` (reassoc_pm_*), `eqn2cst` (op_zero_*, mask_to_slice, sh*_to_comp, bitslice_logic),
-`eqn2snd` (merge_consts, eq_bit, comp distribution), `eqn2tail` (x_op_x), `eqn1` (neg_of_sum, not_cond),
-`setitem`/`cut`/`restruct`/`getitem` (comp_cut, comp_merge, slice_of_comp), `extendExp` (extension). -/
+/-- **eval_sound**.  `e` well-formed, built from constants and registers that `env` binds to constants
+    (`Ground`), every sign-dependent operator applied to operands of one declared signedness (`SignOK`):
+    if `eval` returns at all (it raises on division by zero) it returns the constant whose value is the ideal
+    value of `e` under the valuation `env` stands for, and whose width is the width of `e`.
+    For every fuel and every complexity oracle. -/
+theorem eval_sound (cfg : Cfg) (fuel : Nat) (env : Env) (henv : EnvOK env) (e r : Expr)
+    (he : WF e) (hg : Ground env e) (hs : SignOK e) (h : eval cfg fuel env e = .ok r) :
+    ∃ f, r = .cst (ideal (envVal env) e) e.size f ∧ ideal (envVal env) e < 2 ^ e.size :=
+  let ⟨f, h1, h2, _⟩ := eval_const cfg env henv fuel e r he hg hs h
+  ⟨f, h1, h2⟩
+
+/-- what `_operator.__call__` returns on two constants is the reference meaning of the operator (every
+    operator, incl. `<. >=. >>> <<<` and shifts by any amount), read with the signedness both operands carry -/
+theorem operator_on_constants (cfg : Cfg) (fuel : Nat) (o : Op) (lv ls : Nat) (lf : Bool) (rv rs : Nat) (rf sg : Bool)
+    (res : Expr) (hl : lv < 2 ^ ls) (hr : rv < 2 ^ rs) (hls : 0 < ls) (hsz : o.type ≠ 8 → ls = rs)
+    (hsd : signDep o = true → cstValue lv ls lf = reading sg ls lv ∧ cstValue rv rs rf = reading sg rs rv)
+    (h : callOp cfg fuel o (.cst lv ls lf) (.cst rv rs rf) = .ok res) :
+    ∃ f, res = .cst (binSem o sg ls lv rv) (if o.type = 4 then 1 else if o = Op.mul2 then 2 * ls else ls) f :=
+  callOp_cst_sound cfg fuel o lv ls lf rv rs rf sg res hl hr hls hsz hsd h
+
+/-- a tiled composition of constants is merged by `restruct` into ONE constant: its value is the composition -/
+theorem comp_of_constants (ρ : Val) (n k : Nat) (ps : List Part) (hl : ps.length = k + 1) (ht : Tiles n ps)
+    (hw : ∀ p ∈ ps, WF p.2.2) (hc : AllCst ps) (hn : 0 < n) :
+    ∃ v f, restruct ps = [(0, n, .cst v n f)] ∧ v < 2 ^ n ∧ v = idealParts ρ ps := by
+  obtain ⟨v, f, h1, h2, h3⟩ := restruct_allcst ρ n k ps hl ht hw hc hn
+  exact ⟨v, f, by unfold restruct; rw [hl]; exact h1, h2, h3⟩
+
+/-! ## simplification: what the structural induction gives today
+
+`simplify_sound_partial` is the finished fragment of the induction `oper_sound`/`simplify_sound`:
+every function of the rewrite system, for every fuel, option and complexity oracle, returns a WELL-FORMED
+expression of the SAME WIDTH (so a constant result `cst v w` satisfies `v < 2^w` with `w` the dictated
+width).  Missing (not proved; covered on every run by the correspondence tie and the reference evaluator):
+that the VALUE of the simplified tree is the ideal value of the input — threading the per-rule lemmas above
+through `op.simplify`/`eqn2_helpers`/`comp.__setitem__` (`ideal ρ (simplify e) = ideal ρ e` under `WF e`,
+`SignOK e`, `NoRenderClash e`), case by case: `normL`/`normR` (reassoc_pm_*), `eqn2cst` (op_zero_*,
+mask_to_slice, sh*_to_comp, bitslice_logic), `eqn2snd` (merge_consts, eq_bit, comp distribution), `eqn2tail`
+(x_op_x, which the code decides by comparing renderings: that step needs `NoRenderClash`), `eqn1` (neg_of_sum,
+not_cond), `setitem`/`cut`/`getitem` (comp_cut, slice_of_comp), `extendExp` (extension).
+The evaluation half IS finished (`eval_sound` above). -/
 theorem simplify_sound_partial (cfg : Cfg) (fuel : Nat) (opts : Opts) (e r : Expr) (he : WF e)
     (h : simplify cfg fuel opts e = .ok r) :
     WF r ∧ r.size = e.size ∧ (∀ v s f, r = .cst v s f → v < 2 ^ s ∧ s = e.size) := by
@@ -307,6 +339,31 @@ theorem eval_sound_partial (cfg : Cfg) (fuel : Nat) (env : Env) (henv : EnvOK en
   exact ⟨h1.2, h2⟩
 
 /-! ### non-vacuity -/
+
+/-- `((a + 0xfffffff0) >> 4)[0:8]` with `a = 0x123`: well-formed, ground, sign-agnostic; `eval` returns `0x1` -/
+def exEnv : Env := [("a", 32, .cst 0x123 32 false)]
+def exE : Expr :=
+  .slc (.op .lsr (.op .add (.reg "a" 32 false) (.cst 0xfffffff0 32 false) 32 false 1) (.cst 4 32 false) 32 false 9) 0 8 false none 0
+
+example : WF exE ∧ Ground exEnv exE ∧ SignOK exE := by
+  refine ⟨by simp [exE, WF, Op.type], ?_, by simp [exE, SignOK, signDep]⟩
+  simp only [exE, Ground, and_true, true_and]
+  exact ⟨0x123, false, rfl, by decide⟩
+
+example : EnvOK exEnv := by
+  intro n s v h
+  simp only [exEnv, Env.lookup] at h
+  split at h
+  · rename_i hc
+    simp only [Bool.and_eq_true, beq_iff_eq] at hc
+    cases h; simp [WF]; exact hc.2
+  · cases h
+
+def cfg0 : Cfg := { cplx := fun _ => false, vecCplx := fun _ => false }
+
+example : (match eval cfg0 30 exEnv exE with | .ok (.cst v s _) => v == 0x11 && s == 8 | _ => false) = true := by
+  decide +kernel
+
 
 example : binSem Op.and false 32 0x12345678 0xff00 = (bitsOf 0x12345678 8 8) <<< 8 := by decide
 example : maskBounds 0xff00 = some (8, 15) := by decide +kernel
